@@ -809,7 +809,11 @@ class TreeReduce(ArrayExpr):
     def _simplify_up(self, parent, dependents):
         # Keep the slice pushdown the eagerly built cascade offered: its final
         # PartialReduce knows how to slice its input instead of its output.
-        if self._other_dependents(parent, dependents):
+        # (Same sharing rule as ``_slice_pushdown``: sibling slices may all push.)
+        from dask_array.slicing import SliceSlicesIntegers
+
+        others = self._other_dependents(parent, dependents)
+        if any(not isinstance(node, SliceSlicesIntegers) for node in others.values()):
             return None
         return self._tree._simplify_up(parent, dependents)
 
